@@ -1238,7 +1238,13 @@ impl<'t, 'd> Gen<'t, 'd> {
             *self.repairs.entry("alias-visible-to-one-module".into()).or_default() += 1;
             return;
         }
-        if structs.iter().any(|(m, n)| *m == mb && (*n == ta || *n == format!("{ta}Vftable"))) {
+        let tav = format!("{ta}Vftable");
+        let taken = |n: &str| n == ta || n == tav || format!("{n}Vftable") == ta;
+        if self.prog.mods[mb].items.iter().any(|i| taken(i.name())) || self.prog.mods[mb].ext_types.iter().any(|e| taken(&e.name)) {
+            return;
+        }
+        // and A must not hold something called like B's generated table under the new name, seen from B's users
+        if self.prog.mods[ma].items.iter().any(|i| i.name() == tb) {
             return;
         }
         *self.repairs.entry("alias-applied".into()).or_default() += 1;
